@@ -221,6 +221,30 @@ def oracle(ck, tier, deep):
             wr = quiet(wf, im, origin=o, dr=dr)
             if not (np.array_equal(wr[0], res[k][0]) and np.array_equal(wr[1], res[k][1])):
                 ck.violation(dict(site=wf.__name__, clause="wrapper"), rep, f"{wf.__name__}(origin={o}, dr={dr}) differs from radial_intensity('{k}', …)")
+    # the Jacobian identities are exact wherever the origin is — on an edge, in a corner, counted from the end — and on any frame
+    for _ in range(30 if not deep else 200):
+        rows, cols = (int(v) for v in rng.integers(15, 60, size=2))
+        place = int(rng.integers(0, 4))
+        o = [(int(rng.integers(0, rows)), 0), (int(rng.integers(0, rows)), cols - 1), (int(rng.choice([0, rows - 1])), int(rng.integers(0, cols))),
+             (int(rng.choice([0, rows - 1])), int(rng.choice([0, cols - 1])))][place]
+        if rng.random() < 0.3:
+            o = (o[0] - rows, o[1] - cols)
+        im = rng.random((rows, cols)) + 0.1
+        dr = float(rng.choice([1.0, 0.5, 2.0]))
+        ck.count(("S.jacobian-edge", place, o[0] < 0, dr), suite="S.jacobians")
+        rep = dict(shape=[rows, cols], origin=list(o), dr=dr)
+        try:
+            res = {k: quiet(vmi.radial_intensity, k, im, origin=o, dr=dr) for k in KINDS}
+        except Exception as e:
+            ck.violation(dict(site="radial_intensity", clause="exception"), rep, f"{type(e).__name__}: {e}")
+            continue
+        rg = res["int2D"][0]
+        d2 = np.abs(res["int2D"][1] - 2 * np.pi * rg * res["avg2D"][1]).max()
+        d3 = np.abs(res["int3D"][1] - 4 * np.pi * rg ** 2 * res["avg3D"][1]).max()
+        if d2 > 1e-12 * np.abs(res["int2D"][1]).max():
+            ck.violation(dict(site="radial_intensity", clause="int2D=2πr·avg2D"), rep, f"origin {o} on the frame's border: defect {d2:.3g}")
+        if d3 > 1e-12 * np.abs(res["int3D"][1]).max():
+            ck.violation(dict(site="radial_intensity", clause="int3D=4πr²·avg3D"), rep, f"origin {o} on the frame's border: defect {d3:.3g}")
     # toPES conservation
     for _ in range(40 if not deep else 400):
         K = int(rng.integers(20, 200))
